@@ -64,6 +64,11 @@ def merge_vertices(
     if digits_vertex is None:
         # use tol.merge if digit precision not passed
         digits_vertex = util.decimal_to_digits(tol.merge)
+    # plain integers: as an exponent a numpy integer wraps around
+    # (`10 ** np.int8(8)` is 0, which merges every vertex into one)
+    digits_vertex = int(digits_vertex)
+    digits_norm = int(digits_norm)
+    digits_uv = int(digits_uv)
 
     # if we have a ton of unreferenced vertices it will
     # make the unique_rows call super slow so cull first
